@@ -39,7 +39,9 @@ UserTraits(c) == {"Clone", "Copy"} \cup {f \in TraitFeatures : Has(c.cfg, f)}
 
 \* C15 (+ the rustdoc-visible part of C19): what an observation must satisfy
 SurfaceOK(c, o) ==
-  /\ \A u \in UserItems(c) : u \in o.items                                   \* requested name, kind, visibility, const-ness
+  \* requested name, kind, visibility; const-ness where the documentation promises it (`into`).  An item that is
+  \* `const` without such a promise still has its documented signature: it is not demanded to be non-const
+  /\ \A u \in UserItems(c) : \E i \in o.items : i.name = u.name /\ i.kind = u.kind /\ i.vis = u.vis /\ (u.isconst => i.isconst)
   /\ \A i \in o.items : (\E u \in UserItems(c) : u.name = i.name) \/ i.vis = "private"      \* helpers stay private
   /\ \A i, j \in o.items : i.name = j.name => i = j
   /\ \A s \in UserStructs(c) : \E t \in o.structs : t.name = s.name /\ t.vis = s.vis /\ s.traits \subseteq t.traits
